@@ -835,4 +835,4 @@ impl<const MAX: usize, O: Adjacent> TryFrom<Contiguous<MAX, Index<O>>> for Index
 // verification hook: inert unless built by `cargo kani` (cfg(kani)); see /verif/DESIGN.md
 #[cfg(kani)]
 #[path = "/verif/harness/cuesheet.rs"]
-mod verif_k;
+pub(crate) mod verif_k;
